@@ -18,6 +18,9 @@ type propInfo struct {
 	QuickRuns    int      `json:"QuickRuns"`
 	ThoroughRuns int      `json:"ThoroughRuns"`
 	Level        string   `json:"Level"`
+	EnumSpace    int      `json:"EnumSpace"`
+	EnumRepeat   int      `json:"EnumRepeat"`
+	EnumWhat     string   `json:"EnumWhat"`
 
 	Instrumented bool `json:"-"`
 	NoMinimise   bool `json:"-"`
@@ -45,6 +48,8 @@ var props = map[string]*propInfo{
 	"C14": {},
 	"C15": {},
 	"C16": {},
+	"C19": {},
+	"C20": {},
 }
 
 func loadInfo(bin, id string, p *propInfo) error {
@@ -70,22 +75,22 @@ func writeEvidence(id, tier string, seed uint64, p *propInfo, a *aggregate, det 
 		samples = append(samples, "no run evaluated an invariant")
 	}
 	cov := map[string]any{
-		"evaluations":         a.runs,
-		"distinct_nontrivial": len(a.shapes),
-		"rule":                p.Rule,
-		"samples":             samples,
-		"nontrivial_runs":     a.nontriv,
-		"skipped_runs":        a.skipped,
-		"operations":          a.ops,
-		"logical_steps":       a.steps,
+		"evaluations":           a.runs,
+		"distinct_nontrivial":   len(a.shapes),
+		"rule":                  p.Rule,
+		"samples":               samples,
+		"nontrivial_runs":       a.nontriv,
+		"skipped_runs":          a.skipped,
+		"operations":            a.ops,
+		"logical_steps":         a.steps,
 		"invariant_evaluations": a.checks,
-		"simulated_time":      fmt.Sprintf("%d logical steps (library calls and scheduler steps); go-cose has no clock, so no simulated seconds exist", a.steps),
-		"faults_fired":        a.faults,
-		"probes":              a.probes,
-		"runs_per_hour":       int(float64(a.runs) / wall * 3600),
-		"seeds":               []uint64{seed},
-		"real_components":     p.Real,
-		"stub_components":     p.Stubs,
+		"simulated_time":        fmt.Sprintf("%d logical steps (library calls and scheduler steps); go-cose has no clock, so no simulated seconds exist", a.steps),
+		"faults_fired":          a.faults,
+		"probes":                a.probes,
+		"runs_per_hour":         int(float64(a.runs) / wall * 3600),
+		"seeds":                 []uint64{seed},
+		"real_components":       p.Real,
+		"stub_components":       p.Stubs,
 		"determinism_selftest": map[string]any{
 			"tapes": det.tapes, "processes": det.procs, "gomaxprocs": []int{1, 8}, "identical_event_logs": det.ok, "log_sha256": det.hashes,
 		},
@@ -93,6 +98,16 @@ func writeEvidence(id, tier string, seed uint64, p *propInfo, a *aggregate, det 
 	}
 	if len(a.extra) > 0 {
 		cov["counters"] = a.extra
+	}
+	if p.EnumSpace > 0 {
+		complete := a.enumerated >= p.EnumSpace*p.EnumRepeat
+		cov["enumerated_dimension"] = map[string]any{
+			"what": p.EnumWhat, "space": p.EnumSpace, "contexts_per_element": p.EnumRepeat,
+			"runs_with_forced_element": a.enumerated, "enumerated_completely": complete,
+		}
+		// exhaustive over the fault-vector dimension only; contexts are sampled
+		cov["exhaustive"] = false
+		cov["exhaustive_over_fault_vectors"] = complete
 	}
 	for k, v := range extra {
 		cov[k] = v
